@@ -32,7 +32,11 @@ func init() {
 			{ID: "C03-R2", Title: "the signature is checked under the stored key of the named controller over this exchange's material", Decides: "valid signature with the stored long-term key over controller key, name, accessory key", Floor: 4, Run: c03r2},
 			{ID: "C03-R3", Title: "dispatch guards, reset on every finish exit, writers of the verify-session keys, session built from this controller's shared key", Decides: "out-of-order steps are rejected; keys come from this exchange", Floor: 7, Run: c03r3},
 			{ID: "C03-R4", Title: "an unverified connection stays in plaintext", Decides: "unverified connection stays unverified and in plaintext", Floor: 4, Run: c03r4},
-			{ID: "C03-R5", Title: "stateless wrappers, fresh per-connection verify state, lookups read storage, endpoint keeps no shared state", Decides: "replayed finish messages and removed pairings do not verify; verification is per connection", Floor: 6, Run: c03r5},
+			{ID: "C03-R5", Title: "stateless wrappers, fresh per-connection verify state, lookups read storage, endpoint keeps no shared state", Decides: "replayed finish messages and removed pairings do not verify; verification is per connection", Floor: 6, Run: func(c *core.Ctx) {
+				c03r5(c)
+				c18r3(c) // "the key stored for the claimed name": distinct names have distinct entries
+				entityCtorPasses(c)
+			}},
 		},
 	})
 }
